@@ -571,6 +571,13 @@ func checkSensorReaders(c *Ctx, r *Report) {
 	// the response layer Read then looks at (rule shared with C17, C07)
 	checkResponseAlwaysDecoded(c, r)
 
+	checkSensorRead(c, r)
+}
+
+// checkSensorRead: the Read methods of the two sensor readers (shared with C20: the analog
+// parsers and the conversion are applied, on every read, to the raw byte of the response just
+// decoded — not to a cached or precomputed stand-in).
+func checkSensorRead(c *Ctx, r *Report) {
 	// Read methods
 	r.Rule("read-flags", "Read converts the raw byte only after ReadingUnavailable tested false (else the reading-unavailable sentinel) and then ScanningEnabled tested true (else the scanning-disabled sentinel); the raw byte goes through the record's parser and factors; the linearised reader applies its lineariser to the linear result", 4)
 	// the two reader types are whatever implements SensorReader: the linearised one is the
